@@ -1,12 +1,19 @@
 (* C12 - thread pool (lib/common/pool.c): each accepted job runs exactly once; join, resize, free are safe.
-   Model: ZV.Conc.PoolModel (atomic sections between synchronisation operations, all interleavings).
-   [reach fx bodies progs n q sched] = the state after running schedule [sched] (ANY list of (thread, wake choice))
-   from POOL_create(n, q) with client programs [progs] (client 0 creates/frees the pool) and job table [bodies];
-   fx = true is the current code (POOL_thread broadcasts queuePushCond), fx = false the code before the F5 repair. *)
+
+   Model: ZV.Conc.PoolModel - one [step] = the atomic section of one thread between two synchronisation
+   operations (mutex lock/unlock, cond wait/signal/broadcast, thread join); ALL interleavings.
+   [reach fx bodies progs n q sched] = the state after running schedule [sched] - ANY list of (thread, wake choice);
+   picks of disabled threads are skipped - from POOL_create(n, q), with client programs [progs] over
+   {add, tryAdd, joinJobs, resize} (client 0 created the pool; after its operations it joins the other client
+   threads and calls POOL_free) and job table [bodies] (what each job posts while it runs).
+   fx = true : the current code (POOL_thread broadcasts queuePushCond);  fx = false : the code before the F5 repair.
+   Every theorem holds for every n >= 1, q >= 0, every non-empty [progs], every [bodies], every [sched]. *)
 From Coq Require Import List Arith Bool.
 Import ListNotations.
-From ZV.Conc Require Import Sched PoolModel PoolLemmas PoolInvDefs PoolInv3 PoolInv4 PoolTheorems.
+From ZV.Conc Require Import Sched PoolModel PoolLemmas PoolInvDefs PoolInv3 PoolInv4 PoolInv9 PoolTheorems PoolLive PoolExamples.
 
+(* the circular buffer agrees with the FIFO list of accepted-but-not-started jobs (both queueSize > 1 and the
+   hand-off pool queueSize = 1); queueEmpty is exact *)
 Theorem pool_ring_inv : forall fx bodies progs n q sched,
   progs <> [] -> 1 <= n ->
   let s := reach fx bodies progs n q sched in
@@ -14,6 +21,8 @@ Theorem pool_ring_inv : forall fx bodies progs n q sched,
 Proof. exact ring_inv. Qed.
 Print Assumptions pool_ring_inv.
 
+(* every ticket (= enqueued job) is in exactly one of pending / running / done; tickets never issued are nowhere;
+   the job function is started at most once per ticket; finished implies started *)
 Theorem pool_exactly_once : forall fx bodies progs n q sched k,
   progs <> [] -> 1 <= n ->
   let s := reach fx bodies progs n q sched in
@@ -23,6 +32,7 @@ Theorem pool_exactly_once : forall fx bodies progs n q sched k,
 Proof. exact exactly_once. Qed.
 Print Assumptions pool_exactly_once.
 
+(* POOL_joinJobs: at the moment it is about to return, every job accepted so far has finished *)
 Theorem pool_joinJobs_post : forall fx bodies progs n q sched t th,
   progs <> [] -> 1 <= n ->
   let s := reach fx bodies progs n q sched in
@@ -31,6 +41,7 @@ Theorem pool_joinJobs_post : forall fx bodies progs n q sched t th,
 Proof. exact joinJobs_post. Qed.
 Print Assumptions pool_joinJobs_post.
 
+(* POOL_tryAdd: a refusal loses / duplicates nothing; an acceptance enqueues exactly the posted job *)
 Theorem pool_tryAdd_refusal_lossless : forall cfg tid w s s' th j,
   step cfg tid w s = Some s' -> nth_error (st s) tid = Some th -> t_pc th = PLock KTry j ->
   (is_full (sp s) = true ->
@@ -40,3 +51,57 @@ Theorem pool_tryAdd_refusal_lossless : forall cfg tid w s s' th j,
      pending (sg s') = pending (sg s) ++ [(next (sg s), j)] /\ next (sg s') = S (next (sg s)) /\ refused (sg s') = refused (sg s)).
 Proof. exact tryAdd_refusal_lossless. Qed.
 Print Assumptions pool_tryAdd_refusal_lossless.
+
+(* POOL_free: when it has returned (main client done) every thread has terminated and every accepted job has
+   been started and finished exactly once - also the jobs that were still queued or posted during POOL_free *)
+Theorem pool_free_all_done : forall bodies progs n q sched m,
+  progs <> [] -> 1 <= n ->
+  let s := reach true bodies progs n q sched in
+  nth_error (st s) 0 = Some m -> t_pc m = Done ->
+  all_done s = true /\ pending (sg s) = [] /\ running s = [] /\
+  forall k, k < next (sg s) -> cnt k (done (sg s)) = 1 /\ cnt k (started (sg s)) = 1.
+Proof. exact free_all_done. Qed.
+Print Assumptions pool_free_all_done.
+
+(* no lost wake-up on queuePopCond, resize never strands queued jobs (work conservation): before shutdown,
+   min(pending jobs, threadLimit - numThreadsBusy) workers are awake and about to look at the queue, or the
+   signal of add_internal / the broadcast of POOL_resize that wakes them is about to be delivered *)
+Theorem pool_resize_no_strand : forall bodies progs n q sched,
+  progs <> [] -> 1 <= n ->
+  let s := reach true bodies progs n q sched in
+  shutdown (sp s) = false ->
+  1 <= sumf nrb (st s) \/
+  Nat.min (length (pending (sg s))) (limit (sp s) - busy (sp s)) <= sumf nanb (st s) + sumf npsig (st s).
+Proof. exact no_lost_wakeup_workers. Qed.
+Print Assumptions pool_resize_no_strand.
+
+(* no lost wake-up on queuePushCond (repaired code): a thread asleep in POOL_add still faces a full queue (and no
+   shutdown), a thread asleep in POOL_joinJobs still faces a non-empty queue or a busy worker - or a broadcast on
+   queuePushCond is about to be delivered, or a worker is busy and will broadcast when its job finishes.
+   Hence a blocked POOL_add proceeds once capacity exists (pool_add_returns_when_capacity of the design). *)
+Theorem pool_no_lost_wakeup_pushers : forall bodies progs n q sched t x,
+  progs <> [] -> 1 <= n ->
+  let s := reach true bodies progs n q sched in
+  nth_error (st s) t = Some x -> pw_ok (sp s) (sumf npendb (st s)) x = true.
+Proof. exact no_lost_wakeup_pushers. Qed.
+Print Assumptions pool_no_lost_wakeup_pushers.
+
+(* deadlock freedom / no lost wake-up on queuePushCond, for the repaired code: a state in which no thread can
+   run although some thread is unfinished exists only if a worker is blocked in a BLOCKING POOL_add issued by
+   the very job it is running (a client error: the job waits for a free slot of its own pool) *)
+Theorem pool_deadlock_free : forall bodies progs n q sched,
+  progs <> [] -> 1 <= n ->
+  let cfg := mkcfg true progs bodies in
+  let s := reach true bodies progs n q sched in
+  stuck cfg s = true -> self_blocked s = true.
+Proof. exact deadlock_free. Qed.
+Print Assumptions pool_deadlock_free.
+
+(* finding F5 kept as a refutation: with signal instead of broadcast the same statement is false *)
+Theorem pool_lost_wakeup_refuted :
+  exists bodies progs n q sched,
+    progs <> [] /\ 1 <= n /\
+    let s := reach false bodies progs n q sched in
+    stuck (mkcfg false progs bodies) s = true /\ self_blocked s = false.
+Proof. exact lost_wakeup_refuted. Qed.
+Print Assumptions pool_lost_wakeup_refuted.
